@@ -13,9 +13,7 @@ RULE = ("the C13 programs and inputs; compared: both offset maps of every step a
         "replays the substitutions, and checks every token made of contiguous carried-over characters. "
         "Non-trivial = a rule matched and the result has a token; distinct = canonical JSON.")
 EXHAUSTIVE = {"quick": True, "thorough": True}
-EXPLANATION = ("Map lengths and gap provenance are theorems (the latter under the per-match hypothesis that "
-               "the reported length change equals width - replacement length, proved for templates without "
-               "in-order groups and refuted by witness otherwise: known finding F9).")
+EXPLANATION = ("Map lengths and gap provenance are theorems for every program step, match list and template.")
 ASSUMPTIONS = list(__import__("harness.props.c13", fromlist=["ASSUMPTIONS"]).ASSUMPTIONS) + [
     "YY serialisation round trip of the token lattice is checked by the oracle on every case, not modelled",
 ]
@@ -23,14 +21,12 @@ TRUSTED = []
 LEVEL_TEXT = ("Proof (Coq, no axioms): both offset maps of every step of every program have one entry per "
               "output position plus two sentinels, and so have the merged result maps; every output character "
               "copied from outside all matches is attributed to exactly its original position whatever was "
-              "inserted/deleted before it, provided each match's length change is accounted exactly (proved "
-              "for deletions and templates without in-order group references; refuted by a kernel-computed "
-              "witness for !(a)c -> \\1, the known finding F9); tokenization yields the maximal separator-free "
-              "pieces (model of _tokenize). Maps, spans and tokens are tied to delphin/repp.py by kernel-checked "
-              "correspondence.")
-LEVEL_NOTE = ("Partial: provenance through tracked capture groups is covered by correspondence and the tagging "
-              "oracle only; F9 (matched text outside groups around an in-order group reference is not "
-              "accounted) is a known finding; YY round trip is oracle-only.")
+              "inserted/deleted before it (the net length change of every match is accounted exactly, for "
+              "every template); tokenization yields the maximal separator-free pieces (model of _tokenize). "
+              "Maps, spans and tokens are tied to delphin/repp.py by kernel-checked correspondence.")
+LEVEL_NOTE = ("Partial: provenance of characters carried through tracked capture groups is covered by "
+              "correspondence and the tagging oracle only; YY round trip is oracle-only. F9 (matched text left "
+              "out by in-order group references was not accounted) was repaired by a fix: commit.")
 TECHNIQUE = "Coq proof (length and provenance invariants of the rule loop) + kernel-checked correspondence + tagging oracle"
 DESIGN_REF = "DESIGN.md section 6, C14"
 
@@ -156,11 +152,4 @@ def _risky(prog):
 
 
 def known_match(case, failure, known):
-    if case.get("k") != "repp" or failure == "correspondence":
-        return None
-    if ("is reported at" in failure or "outside the original string" in failure
-            or "original[" in failure) and _risky(rc.normalise(case["prog"])):
-        for e in known:
-            if e["id"] == "F9":
-                return "F9"
     return None
